@@ -66,6 +66,9 @@ func (t *Tokenizer) TokenizeWithLimits(limits TokenizerLimits, input *ast.Input)
 	limitFields := limits.MaxFields > 0
 	fieldsCount := 0
 	lastWasSpread := false // used to dismiss an identifier after a spread operator
+	// seenFragment is set by the first fragment definition; from then on a document-level `{`
+	// (a shorthand operation has no keyword) closes the depth accounting of the previous definition
+	seenFragment := false
 
 	for {
 		next := t.lexer.Read()
@@ -75,6 +78,11 @@ func (t *Tokenizer) TokenizeWithLimits(limits TokenizerLimits, input *ast.Input)
 			t.currentToken = -1
 			return TokenizerStats{TotalDepth: globalDepth + localDepthPeak, TotalFields: fieldsCount}, nil
 		case keyword.LBRACE:
+			if seenFragment && localDepth <= 0 {
+				globalDepth += localDepthPeak
+				localDepth = 0
+				localDepthPeak = 0
+			}
 			globalDepth++
 			if limitDepth && globalDepth > limits.MaxDepth {
 				return TokenizerStats{TotalDepth: globalDepth + localDepthPeak, TotalFields: fieldsCount}, ErrDepthLimitExceeded{
@@ -94,13 +102,20 @@ func (t *Tokenizer) TokenizeWithLimits(limits TokenizerLimits, input *ast.Input)
 			lastWasSpread = true
 		case keyword.IDENT:
 			key := identkeyword.KeywordFromLiteral(input.ByteSlice(next.Literal))
-			switch key {
-			case identkeyword.FRAGMENT, identkeyword.QUERY, identkeyword.MUTATION, identkeyword.SUBSCRIPTION:
+			// query / mutation / subscription / fragment start a definition only at document level; inside
+			// braces they are ordinary names (field, alias, argument, variable, directive, enum value, type)
+			startsDefinition := localDepth <= 0 &&
+				(key == identkeyword.FRAGMENT || key == identkeyword.QUERY || key == identkeyword.MUTATION || key == identkeyword.SUBSCRIPTION)
+			switch {
+			case startsDefinition:
 				// When starting a new operation or fragment, add the local depth peak
 				// to global depth and reset local tracking
 				globalDepth += localDepthPeak
 				localDepth = 0
 				localDepthPeak = 0
+				if key == identkeyword.FRAGMENT {
+					seenFragment = true
+				}
 			default:
 				// localDepth > 0 means that we are inside a selection set, otherwise we're not counting fields
 				// if lastWasSpread, it means that the next token is an identifier of a fragment spread, we dismiss it
